@@ -40,6 +40,8 @@ type Case struct {
 	// MainEnd: how the service's main object (id 1, the one given to
 	// NewService) ends after the script: "" (it stays), "remove", "terminate".
 	MainEnd string `json:"main_end,omitempty"`
+	// HookUS: how long the termination hook of the objects takes (microseconds)
+	HookUS int `json:"hook_us,omitempty"`
 }
 
 func genCase(t *rapid.T) Case {
@@ -52,6 +54,7 @@ func genCase(t *rapid.T) Case {
 		})
 	}
 	c.MainEnd = rapid.SampledFrom([]string{"", "", "remove", "terminate"}).Draw(t, "mainend")
+	c.HookUS = rapid.SampledFrom([]int{0, 0, 100, 1000, 3000}).Draw(t, "hookus")
 	return c
 }
 
@@ -225,6 +228,7 @@ func checkCase(c Case) error {
 			// are what they should be
 			name := fmt.Sprintf("o%d", len(objs))
 			p, inner := probe.NewPong(name, env.Journal)
+			p.TerminateDelay = time.Duration(c.HookUS) * time.Microsecond
 			slow := &slowActor{Actor: inner, entered: make(chan struct{}), gate: make(chan struct{})}
 			type addRes struct {
 				id  uint32
@@ -256,6 +260,7 @@ func checkCase(c Case) error {
 			if op.Target%2 == 0 {
 				n2 := fmt.Sprintf("o%dm", len(objs))
 				p2, a2 := probe.NewPong(n2, env.Journal)
+				p2.TerminateDelay = time.Duration(c.HookUS) * time.Microsecond
 				id2, err := svc.Add(a2)
 				if err != nil {
 					close(slow.gate)
@@ -300,6 +305,7 @@ func checkCase(c Case) error {
 		case "add", "readd":
 			name := fmt.Sprintf("o%d", len(objs))
 			p, actor := probe.NewPong(name, env.Journal)
+			p.TerminateDelay = time.Duration(c.HookUS) * time.Microsecond
 			base := int32(0)
 			if op.Kind == "readd" {
 				// an object which is gone is added again: the same actor, a new life
@@ -345,6 +351,9 @@ func checkCase(c Case) error {
 					return vt.Violationf("C16:remove-error", "step %d: Remove(%d) of a live object failed: %v", i, o.id, err)
 				}
 				o.live = false
+				if n := atomic.LoadInt32(&o.probe.Terminated) - o.baseTerm; n != 1 {
+					return vt.Violationf("C16:hook-not-run-at-return", "step %d: Remove(%d) returned and the termination hook had completed %d times", i, o.id, n)
+				}
 				if err := afterRemoval(o, "Remove"); err != nil {
 					return err
 				}
@@ -391,6 +400,11 @@ func checkCase(c Case) error {
 					return vt.Violationf("C16:terminate-error", "step %d: terminate of live object %d failed: %v", i, o.id, terr)
 				}
 				o.live = false
+				// the acknowledgement is how the caller learns that the object has
+				// terminated: by then the hook has run
+				if n := atomic.LoadInt32(&o.probe.Terminated) - o.baseTerm; n != 1 {
+					return vt.Violationf("C16:hook-not-run-at-acknowledgement", "step %d: terminate(%d) was acknowledged and the termination hook had completed %d times", i, o.id, n)
+				}
 				if err := afterRemoval(o, "terminate()"); err != nil {
 					return err
 				}
